@@ -63,7 +63,15 @@ def run(ctx):
     ):
         chk.rule(rid, txt)
     comp = repo.find_class("CompositeFeatureObserver")
-    init_f, cols = comp.methods.get("initialize_features"), comp.methods.get("_set_column_names")
+    init_f = comp.methods.get("initialize_features")
+    # the method that builds the column names: the one (other than the
+    # constructor) that writes `column_names`
+    cols = next(
+        (m for m in comp.methods.values() if m.name not in ("__init__", "initialize_features")
+         and any(isinstance(n, ast.Attribute) and n.attr == "column_names" for n in own_nodes(m.node))
+         and any(isinstance(n, ast.For) for n in own_nodes(m.node))),
+        None,
+    )
     if init_f is None or cols is None:
         raise AnalysisError("CompositeFeatureObserver.initialize_features/_set_column_names vanished")
 
@@ -72,6 +80,23 @@ def run(ctx):
         return [(ast.unparse(n.iter), ast.unparse(n.target)) for n in fs[:2]]
 
     a, b = loops(init_f), loops(cols)
+    # both may draw from one shared private generator that walks
+    # observers x observer.features.items(): then they agree by construction
+    def gen_source(fi):
+        fs = [n for n in own_nodes(fi.node) if isinstance(n, ast.For)]
+        for n in fs:
+            it = n.iter
+            if isinstance(it, ast.Call) and isinstance(it.func, ast.Attribute) and isinstance(it.func.value, ast.Name) and it.func.value.id == "self" and not it.args:
+                h = repo.method(comp, it.func.attr)
+                if h is not None and any(isinstance(y, (ast.Yield, ast.YieldFrom)) for y in ast.walk(h.node)):
+                    return h
+        return None
+
+    ga, gb = gen_source(init_f), gen_source(cols) if cols is not None else None
+    if ga is not None and ga is gb:
+        inner = loops(ga)
+        if len(inner) == 2 and inner[0][0] == "self.feature_observers" and inner[1][0].endswith(".features.items()"):
+            a = b = inner
     # follow a helper when initialize_features delegates the collection
     lc = Lifecycle(ctx)
     if not a:
